@@ -152,6 +152,8 @@ def plan(tier, seed):
         shards.append(("hist", ci, 16))
     for gi in range(8 if tier == "quick" else 32):
         shards.append(("assignlabels", gi, tier))
+    for ci in range(4):
+        shards.append(("saveindexing", ci, 4))
     vs = [(4097, 2, 2), (8193, 2, 2), (8193, 3, 1)] if tier == "quick" else \
         [(4097, 2, 3), (8193, 2, 3), (8193, 3, 2), (12289, 3, 2), (12289, 2, 3), (8193, 4, 1), (16385, 4, 1)]
     for ng, T, b in vs:
@@ -300,6 +302,71 @@ def _run_hist(desc):
             if len(L2) < len(L1):
                 sh.nontrivial += 1
         sh.sample(case, limit=1)
+    return sh
+
+
+def _run_saveindexing(desc):
+    """indexer.saveindexing is the public method that RUNS the competing assignment and writes the report: on an indexer read from a
+    g-vector file, for every ordered list of the four grains, the grains handed in are still the same matrices afterwards, labels /
+    errors / counts describe exactly those matrices, and saving again gives the same labels and the same file"""
+    import io, contextlib, shutil
+    from ImageD11 import indexing, transform as tr
+    from vt.props import c09
+    indexing.loglevel = 4
+    sh = Shard()
+    U = grains(seed_of())
+    pool = peak_pool(U)
+    gv = peak_list(pool, 257, shift=5)
+    tol = 0.1
+    wvln = 0.3
+    wd = os.path.join(c09.WORK, "c07_si_%d" % os.getpid())
+    shutil.rmtree(wd, ignore_errors=True)
+    os.makedirs(wd)
+    try:
+        with np.errstate(all="ignore"):
+            tth, (e1, e2), (o1, o2) = tr.uncompute_g_vectors(gv.T, wvln)
+        e1 = np.nan_to_num(e1); o1 = np.nan_to_num(o1)
+        ds = np.sqrt((gv * gv).sum(axis=1))
+        gve = os.path.join(wd, "p.gve")
+        with open(gve, "w") as fh:
+            fh.write("4.04 4.04 4.04 90 90 90 F\n# wavelength = %f\n# wedge = 0.000000\n# ds h k l\n" % wvln)
+            fh.write("# xr yr zr xc yc ds eta omega\n")
+            for k in range(len(gv)):
+                fh.write("%.17g %.17g %.17g %.4f %.4f %.17g %.6f %.6f\n" % (gv[k, 0], gv[k, 1], gv[k, 2], 100.0 + k, 200.0 + 2 * k, ds[k], e1[k], o1[k]))
+        orders = [p_ for k in (4, 3, 2) for p_ in itertools.permutations(range(4), k)][desc[1]::desc[2]]
+        for L in orders:
+            with contextlib.redirect_stdout(io.StringIO()):
+                ind = indexing.indexer()
+                ind.readgvfile(gve, quiet=True)
+                ind.hkl_tol = tol
+                ind.assigntorings()
+                ind.ubis = [np.ascontiguousarray(U[g].copy()) for g in L]
+                given = [u.copy() for u in ind.ubis]
+                ind.saveindexing(os.path.join(wd, "a.idx"))
+            case = {"kind": "saveindexing", "order": list(L), "seed": seed_of()}
+            if not np.allclose(ind.gv, gv, rtol=0, atol=1e-15):
+                raise RuntimeError("g-vector file did not round-trip")
+            if len(ind.ubis) != len(given) or any(not np.array_equal(a_, b_) for a_, b_ in zip(ind.ubis, given)):
+                sh.violation("saveindexing:grain-matrices-changed-by-saving", case,
+                             {"max_change": float(max(np.abs(np.asarray(a_) - b_).max() for a_, b_ in zip(ind.ubis, given)))})
+                continue
+            if check_assignment(sh, "saveindexing", case, given, ind.gv, tol, ind.ga, ind.drlv2, 2.0, list(range(len(given)))):
+                hist = np.bincount(ind.ga[ind.ga >= 0], minlength=len(given))
+                if list(hist) != [int(x) for x in ind.gas]:
+                    sh.violation("saveindexing:gas-not-histogram", case, {"gas": ind.gas, "hist": hist})
+            ga1, d1 = ind.ga.copy(), ind.drlv2.copy()
+            with contextlib.redirect_stdout(io.StringIO()):
+                ind.saveindexing(os.path.join(wd, "b.idx"))
+            if not (np.array_equal(ga1, ind.ga) and np.array_equal(d1, ind.drlv2)) or \
+                    open(os.path.join(wd, "a.idx")).read() != open(os.path.join(wd, "b.idx")).read():
+                sh.violation("saveindexing:second-save-differs", case, {"n_labels_differ": int((ga1 != ind.ga).sum())})
+            sh.evaluations += 1
+            if nontrivial(given, gv, tol):
+                sh.nontrivial += 1
+        sh.outcomes.add(("saveindexing", len(orders)))
+        sh.sample(case, limit=1)
+    finally:
+        shutil.rmtree(wd, ignore_errors=True)
     return sh
 
 
@@ -522,6 +589,8 @@ def run_shard(desc):
         return _run_many(desc)
     if desc[0] == "assignlabels":
         return _run_assignlabels(desc)
+    if desc[0] == "saveindexing":
+        return _run_saveindexing(desc)
     return _run_sched(desc)
 
 
@@ -534,6 +603,9 @@ def replay(case):
         gi = [g_ for g_ in range(32) if (g_ * 5) % 128 == case["geometry"]][0]
         r = _run_assignlabels(("assignlabels", gi, "quick"))
         sh.violations = [v for v in r.violations if v["case"]["order"] == case["order"] and v["case"]["tol"] == case["tol"]]
+    elif case["kind"] == "saveindexing":
+        r = _run_saveindexing(("saveindexing", 0, 1))
+        sh.violations = [v for v in r.violations if v["case"]["order"] == case["order"]]
     elif case["kind"] == "many":
         r = _run_many(("many", case["order_index"], "thorough"))
         sh.violations = [v for v in r.violations if v["case"]["npeaks"] == case["npeaks"] and v["case"]["tol"] == case["tol"]]
